@@ -103,7 +103,8 @@ func (a *astSer) rawIn(s string, rowLevel bool) {
 					okFn = false
 				}
 			}
-			if okFn && inner != "" && strings.Count(fn, "(") == strings.Count(fn, ")") {
+			// `unhex('<id>')` of the portion filter stays raw text: the model gives it no structure either (a computed column of the index)
+			if okFn && fn != "unhex" && inner != "" && strings.Count(fn, "(") == strings.Count(fn, ")") {
 				args := splitTop(inner, ", ")
 				tight := rowLevel && rowFns[fn] && len(args) == 1
 				if tight {
